@@ -77,7 +77,7 @@ impl PxWorld {
         }
         let net = bi(&s.tot_base) + bi(&bag_sum(&s.tot_lk)) - &self.c0 - &self.ext;
         format!(
-            "now={} lp={} base={} other={} lk={} fl={} fw={} hw={} cw={} cf={} net={}",
+            "now={} lp={} base={} other={} lk={} fl={} fw={} hw={} cw={} cf={} net={} ed={}",
             self.epoch,
             s.p_lp,
             s.p_base,
@@ -88,7 +88,11 @@ impl PxWorld {
             show_bag(&s.p_w),
             show_bag(&cw),
             show_bag(&cf),
-            net
+            net,
+            {
+                let v: Vec<String> = self.ded.iter().enumerate().filter(|(_, d)| !d.is_zero()).map(|(i, d)| format!("{}:{}", i + 1, d)).collect();
+                if v.is_empty() { "-".to_string() } else { v.join(",") }
+            }
         )
     }
 
@@ -181,8 +185,18 @@ impl PxWorld {
 
     fn exec_impl(&mut self, tr: &mut Trace, text_in: &str) {
         let text = text_in.split("->").next().unwrap().trim().to_string();
-        let w: Vec<&str> = text.split_whitespace().collect();
-        let site = w[0].to_string();
+        let w0: Vec<&str> = text.split_whitespace().collect();
+        let site = w0[0].to_string();
+        // `<op>Ob <caller> <original caller> <rest>` is `<op> <caller> <rest>` with the endpoint's optional
+        // original-caller argument supplied (exitFarmProxy / claimRewardsProxy / enterFarmProxy)
+        let (w, orig): (Vec<&str>, Option<u64>) = if w0[0].ends_with("Ob") {
+            let mut v = vec![&w0[0][..w0[0].len() - 2], w0[1]];
+            v.extend_from_slice(&w0[3..]);
+            (v, Some(w0[2].parse().unwrap()))
+        } else {
+            (w0.clone(), None)
+        };
+        let oc: Option<Address> = orig.map(|o| self.user(o));
         let zero = rust_biguint!(0);
         // ---- top-ups before the pre-snapshot
         match w[0] {
@@ -309,7 +323,11 @@ impl PxWorld {
                     transfers.push(TxTokenTransfer { token_identifier: WFARM.to_vec(), nonce: n, value: a });
                 }
                 self.b.execute_esdt_multi_transfer(&c, &self.proxy, &transfers, |sc| {
-                    let (x, y) = sc.enter_farm_proxy_endpoint(managed_address!(&fa), OptionalValue::None).into_tuple();
+                    let ov = match &oc {
+                        Some(a) => OptionalValue::Some(managed_address!(a)),
+                        None => OptionalValue::None,
+                    };
+                    let (x, y) = sc.enter_farm_proxy_endpoint(managed_address!(&fa), ov).into_tuple();
                     rets.push(pay_of(&x));
                     rets.push(pay_of(&y));
                 })
@@ -321,10 +339,14 @@ impl PxWorld {
                 let (n, a) = parse_pays(w[3]).remove(0);
                 let is_exit = w[0] == "exit";
                 self.b.execute_esdt_transfer(&c, &self.proxy, WFARM, n, &a, |sc| {
+                    let ov = match &oc {
+                        Some(a) => OptionalValue::Some(managed_address!(a)),
+                        None => OptionalValue::None,
+                    };
                     let (x, y) = if is_exit {
-                        sc.exit_farm_proxy(managed_address!(&fa), OptionalValue::None).into_tuple()
+                        sc.exit_farm_proxy(managed_address!(&fa), ov).into_tuple()
                     } else {
-                        sc.claim_rewards_proxy(managed_address!(&fa), OptionalValue::None).into_tuple()
+                        sc.claim_rewards_proxy(managed_address!(&fa), ov).into_tuple()
                     };
                     rets.push(pay_of(&x));
                     rets.push(pay_of(&y));
@@ -442,12 +464,23 @@ impl PxWorld {
         };
         let ok = res.result_status == 0;
         let post = self.snap();
-        let ui = if who >= 1 { (who - 1) as usize } else { 0 };
+        let ui = if who >= 1 && (who as usize) <= self.users.len() { (who - 1) as usize } else { 0 };
+        // the account whose energy entry the call is about: the original caller when one is supplied
+        let ei = match orig {
+            Some(o) if o >= 1 && (o as usize) <= self.users.len() => (o - 1) as usize,
+            _ => ui,
+        };
 
         // ------------------------------------------------------------ failed transaction
         if !ok {
             let msg = res.result_message.clone();
-            let cls = if is_proxy_op && w[0] != "bad" && PROXY_MSGS.iter().any(|m| msg == *m) { "?" } else { "fail" };
+            // only the manager is on the proxy's SC whitelist: anybody else naming an original caller is
+            // rejected by the proxy's own guard (`get_orig_caller_from_opt`)
+            let not_wl = orig.is_some() && ui != self.nplain && msg == "Item not whitelisted";
+            let cls = if is_proxy_op && w[0] != "bad" && (not_wl || PROXY_MSGS.iter().any(|m| msg == *m)) { "?" } else { "fail" };
+            if orig.is_some() && ui != self.nplain {
+                tr.count("branch.orig_caller_by_non_whitelisted");
+            }
             let n = tr.op(&format!("{} -> {}", text, cls));
             tr.count(&format!("op.{}", site));
             tr.count(&format!("err.{}", site));
@@ -862,24 +895,50 @@ impl PxWorld {
         tr.count(&format!("ok.{}", site));
         flush_later(tr);
 
-        // ---- energy: observed deduction
+        // ---- energy: observed deduction (on the entry of the ORIGINAL caller when one was supplied)
         let mut e_obs = BigInt::zero();
+        let mut to_obs: Vec<String> = vec![];
+        let mut ea_obs: Vec<String> = vec![];
         if is_proxy_op && w[0] != "bad" && who >= 1 {
-            e_obs = &pre.energy[ui].0 + &contrib - &post.energy[ui].0;
+            let whose = if ei == ui { "caller's" } else { "original caller's" };
+            e_obs = &pre.energy[ei].0 + &contrib - &post.energy[ei].0;
             let e_want = burned.as_ref().map(|(k, a)| self.en(*k, a)).unwrap_or_else(BigInt::zero);
             if e_obs != e_want {
-                tr.fail("C16", "energy_delta_exact", &site, &format!("energy entry moved by {} beyond the factory's own effects; burned locked tokens account for {}", -&e_obs, -&e_want));
+                tr.fail("C16", "energy_delta_exact", &site, &format!("{} (u{}) energy entry moved by {} beyond the factory's own effects; burned locked tokens account for {}", whose, ei + 1, -&e_obs, -&e_want));
             }
-            let t_obs = bi(&pre.energy[ui].1) + &t_contrib - bi(&post.energy[ui].1);
+            let t_obs = bi(&pre.energy[ei].1) + &t_contrib - bi(&post.energy[ei].1);
             let t_want = burned.as_ref().map(|(_, a)| bi(a)).unwrap_or_else(BigInt::zero);
             if t_obs != t_want {
-                tr.fail("C16", "energy_delta_exact", &site, &format!("locked-token total of the energy entry dropped by {}, burned {}", t_obs, t_want));
+                tr.fail("C16", "energy_delta_exact", &site, &format!("locked-token total of the {} (u{}) energy entry dropped by {}, burned {}", whose, ei + 1, t_obs, t_want));
             }
-            // other users untouched
+            // nobody else's energy moves (in particular not the direct caller's when he acts for somebody);
+            // nobody but the direct caller pays or receives tokens
             for i in 0..self.users.len() {
-                if i != ui && (pre.energy[i] != post.energy[i] || pre.u_base[i] != post.u_base[i] || pre.u_lk[i] != post.u_lk[i] || pre.u_w[i] != post.u_w[i] || pre.u_f[i] != post.u_f[i] || pre.u_other[i] != post.u_other[i]) {
-                    tr.fail("C16", "no_effect_on_other_users", &site, &format!("user u{} changed", i + 1));
+                if i != ei && pre.energy[i] != post.energy[i] {
+                    tr.fail("C16", "no_effect_on_other_users", &site, &format!("energy entry of u{} changed by {} (energy account of this call: u{}, direct caller: u{})", i + 1, &post.energy[i].0 - &pre.energy[i].0, ei + 1, ui + 1));
                 }
+                let moved = pre.u_base[i] != post.u_base[i] || pre.u_lk[i] != post.u_lk[i] || pre.u_w[i] != post.u_w[i] || pre.u_f[i] != post.u_f[i] || pre.u_other[i] != post.u_other[i];
+                if i != ui && moved {
+                    tr.fail("C16", "no_effect_on_other_users", &site, &format!("balances of u{} changed (direct caller: u{})", i + 1, ui + 1));
+                }
+                if i == ui || moved {
+                    to_obs.push(format!("{}", i + 1));
+                }
+                // per-account ledger of what left the real energy entries through the proxy
+                let d = &pre.energy[i].0 - &post.energy[i].0 + if i == ei { contrib.clone() } else { BigInt::zero() };
+                if !d.is_zero() {
+                    ea_obs.push(format!("{}", i + 1));
+                    self.ded[i] += d;
+                }
+            }
+            if orig.is_some() {
+                tr.count("branch.on_behalf_ok");
+                if burned.is_some() && ei != ui {
+                    tr.count("branch.on_behalf_penalty_burn");
+                }
+            }
+            if w[0] == "removeLiq" && ui == self.nplain && burned.is_some() {
+                tr.count("branch.manager_removeLiq_burn");
             }
             // base asset reaches the user only in removeLiq
             if w[0] != "removeLiq" && post.u_base[ui] != pre.u_base[ui] {
@@ -919,7 +978,7 @@ impl PxWorld {
             _ => "-".into(),
         };
         let o = format!(
-            "b={} l={} o={} w={} f={} r={} bl={} e={} nw={} nf={}",
+            "b={} l={} o={} w={} f={} r={} bl={} e={} to={} ea={} nw={} nf={}",
             b_out,
             opt_pay(&outs.l),
             outs.o,
@@ -928,6 +987,8 @@ impl PxWorld {
             opt_pay(&outs.r),
             opt_pay(&burned),
             e_obs,
+            if to_obs.is_empty() { "-".to_string() } else { to_obs.join(",") },
+            if ea_obs.is_empty() { "-".to_string() } else { ea_obs.join(",") },
             nw,
             nf
         );
